@@ -310,7 +310,12 @@ def regenerate_database(required=False):
     p = subprocess.run([hb, "dbdump", "--out", out], stdout=subprocess.PIPE, stderr=subprocess.STDOUT, text=True, timeout=300)
     need(p.returncode == 0, "rbxverif dbdump failed: " + p.stdout.strip()[-600:])
     need(os.path.exists(out) and os.path.getsize(out) > 1000, "rbxverif dbdump wrote no database")
-    return p.stdout.strip()
+    # oracle tables for running the default values through the codec models inside Coq (Gen/DefaultOracle.v)
+    out2 = os.path.join(GEN, "DefaultOracle.v")
+    p2 = subprocess.run([hb, "dboracle", "--out", out2], stdout=subprocess.PIPE, stderr=subprocess.STDOUT, text=True, timeout=300)
+    need(p2.returncode == 0, "rbxverif dboracle failed: " + p2.stdout.strip()[-600:])
+    need(os.path.exists(out2) and os.path.getsize(out2) > 1000, "rbxverif dboracle wrote no tables")
+    return p.stdout.strip() + "; " + p2.stdout.strip()
 
 
 def regenerate_tables():
